@@ -1,11 +1,61 @@
 /-
 Props/C06 — JSON index navigation reproduces every valid document's value.
--/
-import SuccinctlyVerif.Model.JsonNav
-namespace SV.Props.C06
-open SV SV.JsonNav
+Property theorems only; helper lemmas live in Proof/JsonNav*.lean.
 
-/-- placeholder while model and correspondence are brought up -/
-theorem placeholder : parseI64 [0x2D#8, 0x31#8] = some (-1) := by decide
+"Valid document" = `Doc` of `Spec/JsonSimple.lean` (a value tree rendered through tokens with
+arbitrary RFC 8259 whitespace in every gap).  The index is `JsonIndex::build` as modelled in
+`Model/JsonNav.lean`; BP/IB primitives are taken at their specifications (see `level_note`).
+-/
+import SuccinctlyVerif.Proof.JsonNav
+namespace SV.Props.C06
+open SV SV.JsonNav SV.JsonText SV.JsonSemi
+
+/-! ### (a) structure of the index of a valid document -/
+
+/-- For every valid document the standard-cursor reference index (which by C05 is what every engine
+builds) has: as BP string the balanced encoding of the document tree — `1 … 0` around the children
+of each container, keys being leaf children preceding their value, a leaf `10` for every scalar and
+key — and as interest bits exactly the first bytes of the node tokens (`{`, `[`, every string
+including keys, every number and literal) in document order, i.e. the `k`-th IB one is the first
+byte of the `k`-th node in preorder. -/
+theorem index_structure (d : Doc) :
+    (reference d.text).bp = treeBp d.value ∧ (reference d.text).ib = toksStdIb d.toks :=
+  ⟨(reference_doc d).2, (reference_doc d).1⟩
+
+/-- Non-vacuity: `{"k":[1,{}]}`. -/
+example :
+    let d : Doc := ⟨[], .obj [] [.plain ⟨0x6B#8, by decide⟩] [] []
+      (.arr [] (.num ⟨false, .nonzero 0 [], none, none⟩) [] (.cons [] (.obj0 []) [] .nil)) [] .nil, []⟩
+    treeBp d.value = [true, true, false, true, true, false, true, false, false, false] ∧
+    toksStdIb d.toks = [true, true, false, false, false, true, true, false, true, false, false, false] := by
+  decide
+
+/-! ### (b) text-level kernels, for every byte string -/
+
+/-- `JsonString::find_string_end` returns the offset of the first `"` after the opening quote that
+is not preceded by an unescaped backslash (`strEndSpec`, a two-state scan), or `text.len()` if
+there is none — for every text and every start. -/
+theorem string_end_eq (x : Index) (start : Nat) :
+    findStringEnd x start = (strEndSpec (x.text.toList.drop (start + 1)) (start + 1) false).getD x.len :=
+  findStringEnd_eq x start
+
+/-- `raw_and_escaped`: the raw span ends just after that quote (or at the end of the text) and the
+flag reports whether the body contains a backslash escape. -/
+theorem raw_and_escaped_eq (x : Index) (start : Nat) :
+    rawAndEscaped x start =
+      (match strEndSpec (x.text.toList.drop (start + 1)) (start + 1) false with
+        | some i => i + 1 | none => x.len,
+       strEscSpec (x.text.toList.drop (start + 1)) false false) :=
+  rawAndEscaped_eq x start
+
+/-- `nested_number_span(text, start)` = `start` + the length of the longest run of bytes in
+`0-9 . e E + -` beginning at `start` — for every text and every start. -/
+theorem number_span_eq (x : Index) (start : Nat) :
+    nestedNumberSpan x start = start + ((x.text.toList.drop start).takeWhile isSpanByte).length :=
+  nestedNumberSpan_eq x start
+
+example : findStringEnd ⟨#[0x22#8, 0x61#8, 0x5C#8, 0x22#8, 0x62#8, 0x22#8, 0x20#8], Prims.spec [] []⟩ 0 = 5 := by
+  decide
+example : nestedNumberSpan ⟨#[0x2D#8, 0x31#8, 0x2E#8, 0x35#8, 0x2C#8], Prims.spec [] []⟩ 0 = 4 := by decide
 
 end SV.Props.C06
